@@ -160,6 +160,10 @@ pub fn chunk_contexts() -> Vec<Vec<u8>> {
     for n in 14..=17 {
         v.push(vec![b'f'; n]);
     }
+    // numerically small values with many digits (the debug-profile overflow guard does not fire)
+    for n in 15..=17 {
+        v.push(vec![b'0'; n]);
+    }
     v
 }
 
@@ -230,19 +234,20 @@ impl Walker<'_> {
     }
 
     fn descend(&mut self, m: Model, o: &Obs, depth_left: usize, extra_left: usize, only: Option<usize>) {
-        let ms = m.status();
-        let (nd, ne) = if o.st == St::Partial && ms == St::Partial {
+        // the shape of the explored space is decided by the reference machine alone, so that it does
+        // not depend on what the implementation under test answers: expand while the model is
+        // Partial, extend terminal nodes by E more symbols
+        let _ = o;
+        let (nd, ne) = if m.status() == St::Partial {
             if depth_left == 0 {
                 return;
             }
             (depth_left - 1, extra_left)
-        } else if o.st != St::Partial && ms != St::Partial {
+        } else {
             if extra_left == 0 {
                 return;
             }
             (0, extra_left - 1)
-        } else {
-            return;
         };
         let len = self.buf.len();
         let spec = self.spec;
@@ -337,7 +342,7 @@ impl Walker<'_> {
                             let buf = self.buf.clone();
                             self.ck.violation(
                                 format!("accepted by the default configuration, but the result differs under {}", config_names(c)),
-                                &l2, &buf, describe_obs(&o2), describe_obs(&exp), Some((lane, buf.clone(), describe_obs(o))),
+                                &lane, &buf, describe_obs(o), describe_obs(&exp), Some((l2, buf.clone(), describe_obs(&o2))),
                             );
                             ok = false;
                             break;
@@ -355,7 +360,7 @@ impl Walker<'_> {
                     let buf = std::mem::take(&mut self.buf);
                     ok &= self.ck.agree(
                         &format!("options of the other message kind ({}) changed the result", config_names(x)),
-                        &l2, &o2, &lane, o, &buf,
+                        &lane, o, &l2, &o2, &buf,
                     );
                     self.buf = buf;
                     if !ok {
@@ -373,7 +378,7 @@ impl Walker<'_> {
                     let (o2, ok2) = self.ck.eval(&l2, &buf, Some(&m2), None);
                     ok &= ok2;
                     if ok2 && o2.st != St::Err(Kind::TooManyHeaders) {
-                        ok &= self.ck.agree("outcome with capacity N differs from the unlimited outcome although no (N+1)-th header was completed", &l2, &o2, &lane, o, &buf);
+                        ok &= self.ck.agree("outcome with capacity N differs from the unlimited outcome although no (N+1)-th header was completed", &lane, o, &l2, &o2, &buf);
                     }
                     self.buf = buf;
                 }
